@@ -281,7 +281,9 @@ func runEncoding(e *Enc, fn *ssa.Function, props []string) {
 		env.lookup = f.resolverAtPoint(r.instr.Block(), retIdx, nil, r.state)
 		if sp != nil {
 			for _, en := range sp.Ensures {
+				f.undefArbitrary = true
 				t, err := env.evalBool(en.Expr)
+				f.undefArbitrary = false
 				if err != nil {
 					e.specError("%s: ensures %q: %v", e.Key, en.Text, err)
 					continue
